@@ -6,6 +6,10 @@
 2. model -> implementation, (A): for every (H, A, R) the REAL findCommonAncestor (hook H6) runs against a real remote
    Communicator over the in-process pipe; the GetBlockIDByNumber probes seen at the pipe and the result are validated
    against the algorithm of Sync.tla by Trace_Sync.tla (lock step).
+   Serving side (D): the reply of an honest real Communicator must obey the batch rule (never empty while it holds a
+   block: chains with blocks larger than the 512 KB budget); handler contract: handleBlockStream is fed hand-made
+   streams with nil throttle markers at every position, and a 300-block catch-up with a late importer makes the real
+   decoder end the stream in nil markers.
 3. implementation -> model, (B): the REAL download (ancestor search + fetch/decode/handle pipeline, handler = real node
    import) of fresh full nodes against an honest real Communicator and against scripted hostile peers; Trace_Sync runs
    the pipeline model on the answers seen at the pipe and must be able to end in the reported state (error class,
@@ -50,6 +54,17 @@ def corrupt_download(cases):
     c = copy.deepcopy(bad[0])
     c[-1]["status"] = "ok"
     out.append(("fault-unreported", c))
+    huge = [c for c in cases if c[0]["e"] == "BStart" and c[0]["case"].startswith("huge-first")]
+    c = copy.deepcopy(huge[0])
+    fi = [i for i, e in enumerate(c) if e["e"] == "Fetch"]
+    c[fi[0]]["bs"] = []                      # the honest server answers nothing although it holds a (huge) block
+    c = c[:fi[0] + 1] + [c[-1]]
+    c[-1]["imported"], c[-1]["best"] = [], c[0]["best"]
+    out.append(("empty-reply-while-server-has-blocks", c))
+    stre = [c for c in cases if c[0]["e"] == "SStart" and len(c[-1]["imported"]) >= 3]
+    c = copy.deepcopy(stre[-1])
+    c[-1]["imported"] = c[-1]["imported"][:-1]
+    out.append(("stream-block-skipped", c))
     inv = [c for c in cases if c[0]["e"] == "BStart" and "/invalid@" in c[0]["case"]]
     c = copy.deepcopy(inv[-1])
     badid = [b["id"] for e in c if e["e"] == "Fetch" for b in e.get("bs", []) if b["kind"] == "invalid"]
@@ -135,13 +150,19 @@ def run(ctx):
         ctx.cov["download_converged_to_preferred_remote"] = sum(1 for c in cases if c["fault"] == "none" and c["prefers"] and c["converged"])
         ctx.cov["download_remote_not_preferred_kept_local"] = sum(1 for c in cases if c["fault"] == "none" and not c["prefers"] and c["status"] == "ok")
         ctx.cov["download_multi_batch"] = sum(1 for c in cases if c["fetches"] >= 3)
+        ctx.cov["download_blocks_over_reply_budget"] = [c["label"] for c in cases if c["label"].startswith("huge")]
+        ctx.cov["handler_streams_with_nil_markers"] = sum(1 for c in cases if c["peer"] == "stream" and c["nilMarkersQueued"] > 0)
+        ctx.cov["download_nil_markers_queued_by_real_decoder"] = sum(c["nilMarkersQueued"] for c in cases if c["label"].startswith("throttle"))
+        for c in cases:
+            if c.get("panic"):
+                ctx.cov.setdefault("panics", []).append({"case": c["label"], "panic": c["panic"][:1500]})
         ctx.cov["traces_validated_against_impl"] += acc
         bs = [c for c in sc.split_cases(events) if "/invalid@" in c[0].get("case", "")]
         if bs:
             ctx.sample({"download_case": {"case": bs[0][0]["case"], "end": bs[0][-1]}})
 
     # ---- 3b. real Communicator.Sync between full nodes --------------------------------------------------------
-    args = ["-mode", "sync", "-pairs", "19"] + ([] if q else ["-deep"])
+    args = ["-mode", "sync", "-pairs", "20"] + ([] if q else ["-deep"])
     events, st = sc.run_driver(ctx, "syncsim", args, "sync", timeout=900)
     n_sync = 0
     if events is not None:
